@@ -17,7 +17,7 @@ VARIABLES hist,        \* finished transactions
 
 Proj(L) == [bal |-> [a \in Accts |-> [r \in Res |-> [amt |-> Total(r, L.vault[a][r]), ids |-> AllIds(L.vault[a][r])]]],
             sup |-> L.supply,
-            data |-> [r \in NRes |-> {<<x, L.data[r][x].m, L.data[r][x].i>> : x \in DOMAIN L.data[r]}],
+            data |-> [r \in NRes |-> {<<x, L.data[r][x].a, L.data[r][x].b, L.data[r][x].c, L.data[r][x].d>> : x \in DOMAIN L.data[r]}],
             ever |-> L.ever, ctr |-> L.ctr]
 
 Record ==   \* bookkeeping of the step just taken (reads the primed variables of Ledger)
